@@ -51,6 +51,62 @@ def judge(case, impl, eff_ms, limit_is_timer):
     return fails, soft
 
 
+def cases2_for(tier, seed):
+    """histories of up to three timers (insert, set_deadline+update, disable, enable, remove), then one measured idle dispatch"""
+    import random
+    rnd = random.Random(seed * 53 + 12)
+    # directed: an arming is cancelled while it is not the earliest one, or re-armed earlier than every other timer
+    cases = ["700 | i1:300 i2:500 s2:100 r2 r1", "700 | i1:200 i2:600 x2", "700 | i1:200 i2:400 s2:100 x2 x1", "600 | i1:300 i2:500 r2",
+             "700 | i1:200 i2:500 s2:100 r2", "700 | i1:300 i2:600 x2 n2 x2 r1", "650 | i1:150 i2:300 i3:500 s3:100 r3 r1 r2",
+             "500 | i1:400 s1:100", "500 | i1:100 s1:400", "600 | i1:200 i2:400 x1", "600 | i1:200 x1 n1"]
+    n = 14 if tier == "quick" else 120
+    for _ in range(n):
+        slots = [100, 200, 300, 400, 500, 600]
+        rnd.shuffle(slots)
+        ops, live, dis = [], [], []
+        for k in range(1, rnd.randint(2, 3) + 1):
+            ops.append("i%d:%d" % (k, slots.pop()))
+            live.append(k)
+        for _ in range(rnd.randint(1, 4)):
+            c = rnd.random()
+            if c < 0.4 and live and slots:
+                ops.append("s%d:%d" % (rnd.choice(live), slots.pop()))
+            elif c < 0.6 and live:
+                k = rnd.choice(live)
+                ops.append("x%d" % k)
+                dis.append(k)
+            elif c < 0.75 and dis:
+                ops.append("n%d" % dis.pop())
+            elif live:
+                k = live.pop(rnd.randrange(len(live)))
+                ops.append("r%d" % k)
+                if k in dis:
+                    dis.remove(k)
+        cases.append("%d | %s" % (rnd.choice([350, 700]), " ".join(ops)))
+    return cases
+
+
+def run_impl2_one(case):
+    p = subprocess.run([vlib.HARNESS, "timing2"], input=case + "\n", stdout=subprocess.PIPE, stderr=subprocess.PIPE, text=True, timeout=60)
+    return p.stdout.strip()
+
+
+def judge2(case, impl, model):
+    ws, ms = impl.split(), model.split()
+    if len(ws) != 4 or len(ms) != 2:
+        return ["no measurement: %s / %s" % (impl, model)], False
+    el, fired, ok = int(ws[0]), ws[1], int(ws[2])
+    eff, due = int(ms[0]), ms[1]
+    fails = []
+    if ok != 1:
+        fails.append("dispatch returned an error")
+    if el + SLACK_LOW_US < eff * 1000:
+        fails.append("early: the idle dispatch returned after %d us; the earliest live arming / the timeout allow %d ms (a cancelled arming still bounds the wait?)" % (el, eff))
+    if sorted(fired.split(",")) != sorted(due.split(",")):
+        fails.append("fired timers %s, due at the end of the wait: %s" % (fired, due))
+    return fails, el > eff * 1000 + SLACK_HIGH_US
+
+
 def main(tier, seed):
     chk = vlib.Check("C12", tier, seed)
     st = vlib.standard_front(chk)
@@ -88,6 +144,35 @@ def main(tier, seed):
                 "orphaned ping, closed channel}; a case is one real dispatch() measured with Instant",
         "samples": [{"case": c, "impl(elapsed_us fired other ok)": i, "model(eff_ms limit_is_timer)": m} for c, i, m in rows[:4]],
     })
+    # ---- histories of several timers, then one measured idle dispatch
+    cases2 = cases2_for(tier, seed)
+    model2, mlog2 = vlib.run_model(["timing2"], cases2)
+    with ThreadPoolExecutor(max_workers=8) as ex:
+        impl2 = list(ex.map(run_impl2_one, cases2))
+    bad2 = []
+    for c, i, m in zip(cases2, impl2, model2):
+        fails, soft = judge2(c, i, m)
+        tries = 0
+        while soft and not fails and tries < 3:
+            tries += 1
+            retried += 1
+            i = run_impl2_one(c)
+            fails, soft = judge2(c, i, m)
+        if soft and not fails:
+            fails.append("oversleeping: %s us for a limit of %s ms (4 measurements)" % (i.split()[0], m.split()[0]))
+        if fails:
+            bad2.append((c, i, m, fails))
+    chk.cov["evaluations"] += len(cases2)
+    chk.cov["traces_validated_against_impl"] += len(cases2) - len(bad2)
+    chk.cov["timer_histories"] = {"cases": len(cases2), "rule": "directed + random histories of 2-3 timers with distinct deadlines 100..600 ms (insert, set_deadline+update, "
+                                  "disable, enable, remove), then one idle dispatch(350|700 ms) measured; the model's wheel after the same history gives the "
+                                  "expected wait and the timers due", "sample": {"case": cases2[0], "impl(elapsed_us fired ok setup_us)": impl2[0], "model(eff_ms due)": model2[0]}}
+    mlog = (mlog or "") + (mlog2 or "")
+    if bad2 and not bad:
+        c, i, m, fails = bad2[0]
+        chk.violation("oracle-history", "C12 violated on the real code: %s\ncase (timeout_ms | timer history): %s\nmeasured (elapsed_us fired ok setup_us): %s\nmodel (eff_ms due): %s\n(%d failing cases)"
+                      % (fails[0], c, i, m, len(bad2)))
+        return chk.finish()
     if bad:
         c, i, m, fails = bad[0]
         chk.violation("oracle", "C12 violated on the real code: %s\ncase (timeout_ms timer_ms idle_kind): %s\nmeasured (elapsed_us fired other ok): %s\nmodel (eff_ms limit_is_timer): %s\n(%d failing cases)"
@@ -100,8 +185,21 @@ def main(tier, seed):
 
 def replay(path):
     cases = [l.strip() for l in open(path) if len(l.split()) == 3 and l.split()[0].lstrip("-").isdigit()]
+    cases2 = [l.split(":", 1)[1].strip() for l in open(path) if l.startswith("case (timeout_ms | timer history):")]
+    cases2 += [l.strip() for l in open(path) if "|" in l and l.split("|")[0].strip().isdigit() and not l.startswith("case")]
     vlib.build_harness()
     vlib.build_model()
+    if cases2:
+        model2, _ = vlib.run_model(["timing2"], cases2)
+        rc = 0
+        for c, m in zip(cases2, model2):
+            i = run_impl2_one(c)
+            f, soft = judge2(c, i, m)
+            print(c, "| impl:", i, "| model:", m, "|", f or "ok", "(slow)" if soft else "")
+            if f:
+                rc = 1
+        if not cases:
+            return rc
     model, _ = vlib.run_model(["timing"], cases)
     rc = 0
     for c, m in zip(cases, model):
